@@ -61,7 +61,7 @@ ASSUMPTIONS = [
     "asyncio FIFO ready queue is kept; interleavings explored are start instants, sleeps, executor latency, cost",
 ]
 TIERS = {
-    "quick": {"runs": 6400, "chunk": 200},
+    "quick": {"runs": 5000, "chunk": 160},
     "thorough": {"runs": 160000, "chunk": 1000, "chunk_timeout": 1800},
 }
 REACH_PROBES = [
